@@ -14,6 +14,7 @@ NOT_BUILT = ("not claimed in this revision: the Lean model, theorems and code ti
 NOT_CLAIMED = {}
 ENGINES = [
     {"name": "lean", "path": "lean/", "kind_free_text": "Lean 4 library NeoFS: Model/* executable models, Props/Cxx.lean property theorems, Main.lean line-protocol driver (neofs_model)"},
+    {"name": "int256", "path": "harness/eng_int256.go", "serves_properties": ["C05"], "kind_free_text": "differential driver of internal/signed256 and the int-string readers of pkg/core/object against Model/Int256.lean, with a math/big oracle"},
     {"name": "ec", "path": "harness/eng_ec.go", "serves_properties": ["C21", "C22"], "kind_free_text": "differential driver of internal/ec against Model/EC.lean"},
 ]
 
@@ -39,3 +40,20 @@ prop("C22",
           "non-trivial = nodes > total > 1 (several residue classes, several rounds); distinct by triple",
      trusted=["Model/EC.lean nodeSeq is a hand transcription of NodeSequenceForPart; tied by the line-by-line correspondence run"],
      assumptions=["indexes are non-negative machine ints far below 2^63 (no wrap in partIdx+shift)"])
+
+prop("C05",
+     theorems=["NeoFS.Int256.encode_length", "NeoFS.Int256.decode_encode", "NeoFS.Int256.encode_order",
+               "NeoFS.Int256.cmp_correct", "NeoFS.Int256.key_order_eq_cmp", "NeoFS.Int256.parse_accepts_iff",
+               "NeoFS.Int256.parse_toDec", "NeoFS.Int256.readers_agree", "NeoFS.Int256.compare_strings_numeric"],
+     engines=[dict(name="int256", quick=1, thorough=1)],
+     claim="Unbounded Lean theorems over the whole 257-bit signed range: keys have length 33, decode(encode z)=z, byte order of keys = numeric order "
+           "= Int.Cmp, ParseDecimal accepts exactly [+-]?digits in range with the right value, print-then-parse is the identity, the two-step reader "
+           "(splitIntString+ParseNormalizedDecimal) equals ParseDecimal on every string, compareIntStrings is numeric order for digit strings of any length. "
+           "Model tied to signed256 / metadata.go by a differential run on boundary, random and malformed inputs.",
+     note="Trusted: Lean kernel; hand model Model/Int256.lean incl. the modelled behaviour of third-party uint256.SetFromDecimal/Dec "
+          "(one tolerated leading '+', leading zeros, range check) — tied by correspondence only.",
+     rule="boundary values (0, +-1, +-2^k+-1 for 13 k up to 256) and seeded random 1..257-bit values; strings = decorated valid values, random strings over "
+          "a sign/digit/garbage alphabet, single-character mutations, 70-81 digit strings; ops parse/split/norm/cmp/cmpstr/dec; non-trivial = accepted parse "
+          "or value comparison, distinct by input",
+     trusted=["uint256.Int.SetFromDecimal / Dec / Bytes32 / SetBytes32 (third party) are modelled, not verified"],
+     assumptions=["strings are compared as byte strings (Go semantics); the model maps each byte to one Char"])
